@@ -290,8 +290,11 @@ M03(L) == A03(L) =>
 
 \* --- C04 ---------------------------------------------------------------
 A04(L) == IsRet(L) /\ L.last.fromStore /\ ~L.last.val304 /\ L.last.e.h.unk = 0
+\* (also by the Vary the origin last sent for this representation, should the reply carry another one)
 M04(L) == A04(L) =>
-  LET R == L.last IN VariantMatch(R.rep, L.tk[R.e.tok].rq, R.rq)
+  LET R == L.last IN
+  /\ VariantMatch(R.rep, L.tk[R.e.tok].rq, R.rq)
+  /\ VariantMatch([R.rep EXCEPT !.vary = R.erep.vary, !.vs = R.erep.vs], L.tk[R.e.tok].rq, R.rq)
 
 \* --- C05 ---------------------------------------------------------------
 A05(L) == IsRet(L) /\ (L.last.fromStore \/ L.last.ownTok)
@@ -340,6 +343,9 @@ M08(L) ==
         LET R == L.last  E == R.effBefore[R.e.tok] IN
         E.n304 > 0 => (R.e.tag = E.lasttag /\ SameHeaders(R.rep, E.rep)))
   /\ (A09(L) /\ ~Reused(L) => \A T \in L.last.cands : L.last.effBefore[T].n304 = 0)
+  \* the fields a freshening 304 brought are replayed with the freshened response
+  /\ (A08(L) /\ ~L.last.val304 /\ ~L.faulted /\ ~L.hadconc /\ L.last.e.tok \in DOMAIN L.last.effBefore
+        /\ L.last.effBefore[L.last.e.tok].n304 > 0 /\ L.last.e.tok \notin L.fuzzy => L.last.e.e2eok = 1)
   \* other variants stay available after a validation result was written back for the URI
   /\ (A09(L) /\ ~Reused(L) => L.last.rq.u \notin L.vu)
 M07x(L) == (A09(L) /\ ~Reused(L)) => (L.last.cands \cap L.namedxo = {})
